@@ -6,6 +6,7 @@ import os
 from .. import env, hyp, gen, refasm as R, render, monitors as M, optable as O, builders
 from ..util import headroom
 from hypothesis import strategies as st
+C = O.CODES
 
 P = env.P
 ID = 'C12'
@@ -17,7 +18,8 @@ RULE = ('termination: every byte string up to a bound (complete enumeration, see
         'compile_script for generated programs (canonical spelling), all builder outputs and repository vectors; '
         'oracle = recompiling the listing (joined by newline and by space) gives identical bytes AND the listing, '
         'read by a reference listing parser, equals the reference disassembly; non-trivial = an operand of >= 128 '
-        'bytes or a nested block.  distinct = digest of the byte string.')
+        'bytes or a nested block.  distinct = digest of the byte string.'
+        ' One refused decompile precedes every round trip; nests of depth 4 .. 60 through every clause with the entries into the decompiler bounded by 4 per level.')
 ASSUMPTIONS = ['termination is decided through the progress invariant (no negative read, pointer never decreases, '
                'every iteration reads >= 1 byte), not by waiting',
                'reference disassembler / listing reader in vt/refasm.py written from docs.md operand shapes']
@@ -143,7 +145,78 @@ def _def_directly_in_def(prog, inside=False):
     return False
 
 
+_BAD_INPUTS = [b'\x03\x05\x01', bytes([C['OP_IF'], 0, 9, 1]), bytes([C['OP_TRY_EXCEPT'], 0, 2, 1]), bytes([C['OP_PUSH2'], 0xff]),
+               bytes([C['OP_IF'], 0, 4, C['OP_IF'], 0, 9, 1])]
+_HISTORY = [0]
+
+
+def _refused_decompile():
+    """History: one malformed input (refused with an error) is decompiled before every round trip; what an earlier call
+    refused must not colour a later call."""
+    _HISTORY[0] += 1
+    try:
+        P.decompile_script(_BAD_INPUTS[_HISTORY[0] % len(_BAD_INPUTS)])
+    except BaseException as e:  # noqa
+        if isinstance(e, (KeyboardInterrupt, SystemExit)):
+            raise
+
+
+def nest_bytes(kind, depth):
+    L2 = lambda x: len(x).to_bytes(2, 'big')  # noqa: E731
+    inner = bytes([C['OP_TRUE']])
+    for _ in range(depth):
+        if kind == 'except':
+            inner = bytes([C['OP_TRY_EXCEPT']]) + L2(b'\x01') + b'\x01' + L2(inner) + inner
+        elif kind == 'try':
+            inner = bytes([C['OP_TRY_EXCEPT']]) + L2(inner) + inner + L2(b'\x01') + b'\x01'
+        elif kind == 'if':
+            inner = bytes([C['OP_IF']]) + L2(inner) + inner
+        elif kind == 'else':
+            inner = bytes([C['OP_IF_ELSE']]) + L2(b'\x01') + b'\x01' + L2(inner) + inner
+        elif kind == 'ifelse-if':
+            inner = bytes([C['OP_IF_ELSE']]) + L2(inner) + inner + L2(b'\x01') + b'\x01'
+        elif kind == 'loop':
+            inner = bytes([C['OP_LOOP']]) + L2(inner) + inner
+        else:
+            raise ValueError(kind)
+    return inner
+
+
+class _TooMuchWork(BaseException):
+    pass
+
+
+def check_work(kind, depth):
+    """Terminates, at scale: decompiling a nest of `depth` blocks enters the decompiler a number of times linear in the
+    depth (measured: 2 per level), whichever clause carries the nesting."""
+    b = nest_bytes(kind, depth)
+    orig = P.decompile_script
+    n = [0]
+
+    def counting(*a, **k):
+        n[0] += 1
+        if n[0] > 60 * depth + 100:
+            raise _TooMuchWork()
+        return orig(*a, **k)
+    P.decompile_script = counting
+    try:
+        try:
+            counting(b)
+        except _TooMuchWork:
+            return [('rt/decompile-work-explodes-with-nesting@block:%s' % kind, 'more than %d entries for depth %d (%d bytes)' % (60 * depth + 100, depth, len(b)))]
+        except BaseException as e:  # noqa
+            if isinstance(e, (KeyboardInterrupt, SystemExit)):
+                raise
+            return [('rt/decompile-of-compilable-nest-raises-%s@block:%s' % (type(e).__name__, kind), 'depth %d' % depth)]
+    finally:
+        P.decompile_script = orig
+    if n[0] > 4 * depth + 10:
+        return [('rt/decompile-work-superlinear-in-nesting@block:%s' % kind, '%d entries for depth %d' % (n[0], depth))]
+    return check_rt_bytes(b)
+
+
 def check_rt_bytes(b):
+    _refused_decompile()
     r = _mini_rt(b)
     if r is None:
         return []
@@ -178,6 +251,10 @@ def check_case(case):
         return check_term(case['data'])[0]
     if chk == 'rtb':
         return check_rt_bytes(case['data'])
+    if chk == 'work':
+        if case['kind'] not in ('except', 'try', 'if', 'else', 'ifelse-if', 'loop') or not 1 <= case['depth'] <= 200:
+            raise ValueError('domain')
+        return check_work(case['kind'], case['depth'])
     if chk == 'rtsrc':
         k, b = _try_compile(case['src'])
         if k != 'ok':
@@ -358,6 +435,15 @@ def task_rt_gen(ctx):
                     ctx.count('rt-macro:compiled')
                     for sig, det in fails:
                         ctx.fail('rtsrc', sig, {'check': 'rtsrc', 'src': src}, det)
+    # nests at scale: every clause that can carry nesting x depths up to 60
+    if ctx.shard == 0:
+        for kind in ('except', 'try', 'if', 'else', 'ifelse-if', 'loop'):
+            for depth in (4, 8, 14, 20, 30, 60):
+                fails = check_work(kind, depth)
+                ctx.case(('work', kind, depth), True)
+                ctx.count('rt-work:nest depth >= 20' if depth >= 20 else 'rt-work:nest depth < 20')
+                for sig, det in fails:
+                    ctx.fail('work', sig, {'check': 'work', 'kind': kind, 'depth': depth}, det)
     # operand sizes on both sides of 2^7, 2^8, 2^15, 2^16 for pushes and block bodies
     if ctx.shard == 0:
         for ln in (127, 128, 129, 255, 256, 257, 32767, 32768, 32769, 65535):
